@@ -38,6 +38,10 @@ pub open spec fn text_ok(t: &TextRef) -> bool { text_ok_s(t.words@, t.chars@.len
 impl TrigramIndex {
     pub open spec fn wf(&self) -> bool { self.len <= 0x4000_0000 && postings_wf(self.dict@, self.len as int) }
 }
+// the positions that share a gram with the query text
+pub open spec fn share_set(dict: Map<[char; 3], Vec<usize>>, len: int, words: Seq<WordShape>, chars: Seq<char>) -> Set<int> {
+    vstd::set_lib::set_int_range(0, len).filter(|j: int| shares(dict, words, chars, j))
+}
 // contract of TrigramIndex::prepare as Store::search sees it: candidate positions are positions of existing records, none twice,
 // at most 10*size of them; each shares a gram with the query; when the index holds at most 10*size records, every record that
 // shares a gram with the query is a candidate
@@ -45,4 +49,7 @@ pub open spec fn prepare_post(dict: Map<[char; 3], Vec<usize>>, len: int, words:
     (forall|k: int| 0 <= k < r.len() ==> #[trigger] r[k] < len) && r.no_duplicates() && r.len() <= size * 10
     && (forall|k: int| 0 <= k < r.len() ==> shares(dict, words, chars, #[trigger] r[k] as int)) // [C05]
     && (len <= size * 10 ==> forall|j: int| 0 <= j < len && #[trigger] shares(dict, words, chars, j) ==> r.contains(j as usize)) // [C03 C04]
+    // C18: exactly min(number of sharing positions, 10*size) candidates; all of them when at most 10*size positions share a gram
+    && r.len() == (if share_set(dict, len, words, chars).len() < size * 10 { share_set(dict, len, words, chars).len() as int } else { size * 10 }) // [C18]
+    && (share_set(dict, len, words, chars).len() <= size * 10 ==> forall|j: int| 0 <= j < len && #[trigger] shares(dict, words, chars, j) ==> r.contains(j as usize)) // [C18 C03 C04]
 }
